@@ -428,6 +428,34 @@ fn random(a: &Args) {
             }
         }
     }
+    // strings that read as core-schema literals, near misses of them, and number-like strings of every length up to
+    // far beyond what a number printer writes (the boundary texts of C08 and long digit runs)
+    let mut typelike: Vec<String> = super::c08::boundary_texts(seed_from_env(), false).into_iter().map(|x| x.1).filter(|t| t.len() <= 64).collect();
+    for n in [20usize, 31, 32, 33, 34, 40, 64, 65, 100, 129, 309, 400] {
+        let d: String = "1234567890".chars().cycle().take(n).collect();
+        for t in [d.clone(), format!("-{d}"), format!("+{d}"), format!("0.{d}"), format!("{d}.5"), format!(".{d}"), format!("{d}e3"), format!("1e{}1", "0".repeat(n)), format!("0x{}", "f".repeat(n)), format!("0o{}", "7".repeat(n)),
+                  format!("{}1", "0".repeat(n)), format!("{d}_"), format!("{d}a")] {
+            typelike.push(t);
+        }
+    }
+    typelike.push(format!("{}", f64::MAX));
+    typelike.push(format!("{}", 1e40f64));
+    typelike.push(format!("{}", f64::MIN_POSITIVE));
+    typelike.push(format!("{:e}", f64::MAX));
+    for (i, x) in typelike.iter().enumerate() {
+        let focus = json!({"t": "str", "typelike": x.chars().take(60).collect::<String>(), "len": x.len()});
+        for pos in ["root", "item", "key", "value"] {
+            let y = place(x, pos, false);
+            for (c, m) in ALL_SETTINGS {
+                // all settings for a rotating quarter of the texts, the default setting for all
+                if (c, m) != ALL_SETTINGS[0] && i % 4 != 0 {
+                    continue;
+                }
+                s.put(run_case(&y, c, m), "typelike", pos, &focus, false);
+                cases += 1;
+            }
+        }
+    }
     for _ in 0..ntrees {
         let y = rand_tree(&mut rng, 0, &pool);
         for (c, m) in ALL_SETTINGS {
